@@ -46,6 +46,45 @@ impl ChangeListener for Rec {
     }
 }
 
+/// A listener that implements only the REQUIRED methods (like the undo `Changeset`): whatever the
+/// provided methods of the traits turn a call into must still replay the old text to the new one.
+#[derive(Default)]
+struct Plain {
+    dels: Vec<(usize, String)>,
+    other: bool,
+}
+impl DeleteListener for Plain {
+    fn delete(&mut self, idx: usize, string: &str, _: Direction) {
+        self.dels.push((idx, string.to_owned()));
+    }
+}
+impl ChangeListener for Plain {
+    fn insert_char(&mut self, _: usize, _: char) {
+        self.other = true;
+    }
+    fn insert_str(&mut self, _: usize, _: &str) {
+        self.other = true;
+    }
+    fn replace(&mut self, _: usize, _: &str, _: &str) {
+        self.other = true;
+    }
+}
+
+/// Does replaying the deletions `Plain` saw turn `old` into `new`?
+fn plain_replays(old: &str, new: &str, p: &Plain) -> bool {
+    if p.other {
+        return true;
+    }
+    let mut t = old.to_owned();
+    for (idx, s) in &p.dels {
+        if *idx > t.len() || !t.is_char_boundary(*idx) || !t[*idx..].starts_with(s.as_str()) {
+            return false;
+        }
+        t.replace_range(*idx..*idx + s.len(), "");
+    }
+    t == new
+}
+
 enum Op {
     Update(String, usize),
     Insert(char, u16),
@@ -315,10 +354,29 @@ pub fn exec(f: &[&str]) -> Option<String> {
             lb = mk();
         }
         let mut rec = Rec::default();
+        // the same kill once more on a copy of the state, seen through the provided trait methods only
+        let plain_ok = if let Op::Kill(m) = op {
+            let (old, old_pos) = (lb.as_str().to_owned(), lb.pos());
+            catch_unwind(AssertUnwindSafe(|| {
+                let mut lb2 = LineBuffer::with_capacity(cap);
+                lb2.insert_str(0, &old, &mut Rec::default());
+                lb2.set_pos(old_pos);
+                let mut p = Plain::default();
+                lb2.kill(m, &mut p);
+                plain_replays(&old, lb2.as_str(), &p)
+            }))
+            .unwrap_or(true)
+        } else {
+            true
+        };
         let r = catch_unwind(AssertUnwindSafe(|| apply(&mut lb, op, &mut rec)));
         match r {
             Ok(ret) => {
-                let ns = if rec.ns.is_empty() { "~".to_string() } else { rec.ns.join(";") };
+                let mut ns = if rec.ns.is_empty() { "~".to_string() } else { rec.ns.join(";") };
+                if !plain_ok {
+                    // never produced by the model: shows up as a disagreement with this marker
+                    ns.push_str(";!provided-listener-methods-do-not-replay");
+                }
                 obs.push(format!("{}/{}/{}/{}", enc_text(lb.as_str()), lb.pos(), ret, ns));
             }
             Err(_) => {
